@@ -375,7 +375,9 @@ Plan plan_C13(Rng& r, const std::string& tier) {
 	p.steps.push_back(gen::mk(0, "et_load", {0, 0}, mdl::to_lit(gen::gen_ta(r, pool, o))));
 	p.steps.push_back(gen::mk(0, "bdd_load", {1, 0}, mdl::to_lit(gen::gen_ta(r, pool, o))));
 	p.steps.push_back(gen::mk(0, "fa_load", {}, mdl::to_lit(gen::gen_fa(r, {"a", "b"}, 3))));
-	uint64_t idx = g_run_index;
+	// even run indices work through the systematic part, odd ones (and everything beyond it) are sampled runs: whatever the budget
+	// and however slow the machine, both parts make progress
+	uint64_t idx = (g_run_index % 2 == 0) ? g_run_index / 2 : ~uint64_t(0);
 	if (idx < items.size()) {
 		// systematic part: the complete single-fault space (truncation, line faults, zero tails) of every shipped small text
 		const WorkItem& w = items[size_t(idx)];
